@@ -970,14 +970,20 @@ def b_max (args : List Val) (s : BState) : BR :=
   | vs => (extreme s.heap true vs).map (·, s)
 
 /-- `Decimal(random.random())`: m / 2^53 exactly; in lowest terms n / 2^k ↦ n·5^k E-k -/
+def unitRed : Nat → Nat → Nat → Nat × Nat
+  | 0, n, k => (n, k)
+  | f + 1, n, k => if k > 0 ∧ n % 2 = 0 then unitRed f (n / 2) (k - 1) else (n, k)
+
+/-- the 53-bit fraction `(x / 2^11) / 2^53` of a 64-bit draw as an exact decimal (what
+    `Decimal(random.random())` is for the stand-in generator) -/
+def unitDec (x : Nat) : Dec :=
+  let m := x / 2048
+  let nk := if m = 0 then (0, 0) else unitRed 53 m 53
+  { neg := false, coeff := nk.1 * 5 ^ nk.2, exp := -(nk.2 : Int) }
+
 def randUnit (s : BState) : BR :=
   let x := lcgNext s.rng
-  let m := x / 2048
-  let rec red : Nat → Nat → Nat → Nat × Nat
-    | 0, n, k => (n, k)
-    | f + 1, n, k => if k > 0 ∧ n % 2 = 0 then red f (n / 2) (k - 1) else (n, k)
-  let (n, k) := if m = 0 then (0, 0) else red 53 m 53
-  ret (.dec { neg := false, coeff := n * 5 ^ k, exp := -(k : Int) } true) { s with rng := x }
+  ret (.dec (unitDec x) true) { s with rng := x }
 
 /-- `random.choice(xs)` -/
 def randChoice (xs : List Val) (s : BState) : BR :=
